@@ -331,7 +331,15 @@ def reader_bound(ctx: Ctx, r: Roles, rule: str):
 
 def loop_independence(ctx: Ctx, r: Roles, rule: str):
     src = r.fi.params[0]
-    uses = [n for n in ast.walk(r.loop) if isinstance(n, ast.Name) and n.id == src]
+    uses = []
+    for n in ast.walk(r.loop):
+        test = None
+        if isinstance(n, (ast.If, ast.While, ast.IfExp)) and n is not r.loop:
+            test = n.test
+        if isinstance(n, ast.Call) and dotted(n.func) in ("isinstance", "type", "hasattr"):
+            test = n
+        if test is not None:
+            uses += [x for x in ast.walk(test) if isinstance(x, ast.Name) and x.id == src]
     ctx.decide(not uses, rule, f"{GEN}::loop-uses-source",
                "the packet loop does not look at the source object or its kind",
                f"the packet loop refers to `{src}` (line {uses[0].lineno if uses else '?'}): framing depends on the source kind",
